@@ -205,10 +205,20 @@ class BundleFlattener(ElabPass):
     def resolve_bundlerefs(self, hasrefs: Union[BundleInstance, BundleRef]) -> None:
         """Resolve all BundleRefs that `hasrefs` has given out."""
         for bref in hasrefs.refs_to_me.values():
+            if self.is_unused(bref):
+                # Bundles remember a reference for every attribute ever asked of them, including misspelt ones
+                # that were since replaced. References which nothing uses are not part of the design.
+                continue
             # Recursively get references it has handed out
             self.resolve_bundlerefs(bref)
             # And resolve `bref` itself
             self.resolve_bundleref(bref)
+
+    def is_unused(self, bref: BundleRef) -> bool:
+        """Boolean indication of whether nothing is connected to, sliced from, concatenated with or refers further into `bref`."""
+        if connected_ports(bref) or bref._slices or bref._concats:
+            return False
+        return all(self.is_unused(sub) for sub in bref.refs_to_me.values())
 
     def replace_bundle_conn(self, inst: Instance, portname: str, flat: BundleScope):
         """
